@@ -102,6 +102,39 @@ def adds(ctx, shard, nshards):
                 sub.evaluations += 1
                 if n2 != n:
                     sub.nontrivial_count += 1
+    # the same instants given as seconds since the epoch (-i %s on stdin, @N as argument)
+    EL = 9 * 10 ** 9
+    einst = [(n, s) for n, s in inst if abs(R.epoch(n, s)) < EL]
+    elines = ["%d" % R.epoch(n, s) for n, s in einst]
+    for k, u, mul in durs[shard % 3::3]:
+        dur = "%+d%s" % (k, u)
+        try:
+            out, _ = run_lines(ctx.build, "dadd", ["-i", "%s", "-f", "%s", "--", "+0s", dur], elines)
+        except BatchError as e:
+            V.add("batch:epoch:%s" % u, {"rep": "epoch", "dur": dur, "kind": "batch", "ins": elines[:3]},
+                  detail=str(e), actual=e.result.brief())
+            continue
+        for (n, s), i, o in zip(einst, elines, out):
+            x = int(i) + k * mul
+            if not (R.NMIN * 86400 <= x + R.UNIX0 * 86400 < (R.NMAX + 1) * 86400) or abs(x) >= EL:
+                continue
+            if o != "%d" % x:
+                V.add("epoch:%s%s" % ("+" if k > 0 else "-", u),
+                      {"rep": "epoch", "in": i, "dur": dur, "n": n, "s": s, "k": k, "mul": mul, "kind": "eadd"},
+                      expected="%d" % x, actual=o, weight=abs(k * mul))
+            sub.evaluations += 1
+            sub.nontrivial_count += 1
+        for (n, s), i in list(zip(einst, elines))[:4]:
+            x = int(i) + k * mul
+            if not (R.NMIN * 86400 <= x + R.UNIX0 * 86400 < (R.NMAX + 1) * 86400) or abs(x) >= EL:
+                continue
+            r = run_args(ctx.build, "dadd", ["-f", "%s", "--", "@" + i, dur])
+            o = (r.lines() or [""])[0]
+            sub.evaluations += 1
+            if o != "%d" % x:
+                V.add("epoch@:%s%s" % ("+" if k > 0 else "-", u),
+                      {"rep": "epoch", "in": i, "dur": dur, "n": n, "s": s, "k": k, "mul": mul, "kind": "eadd@"},
+                      expected="%d" % x, actual=o, weight=abs(k * mul))
     if shard == 0:
         sub.sample({"in": "2012-03-05T23:59:59", "dur": "+1s", "expected": "2012-03-06T00:00:00"})
         sub.sample({"in": dt_text("ywd", inst[0][0], inst[0][1]), "dur": "%+d%s" % durs[-1][:2]})
@@ -208,6 +241,13 @@ def replay(ctx, subname, case):
     k = case.get("kind")
     if k == "batch":
         return {"detail": "batch failure; re-run the check"}
+    if subname == "c11.adds" and k in ("eadd", "eadd@"):
+        x = "%d" % (int(case["in"]) + case["k"] * case["mul"])
+        if k == "eadd":
+            out, _ = run_lines(ctx.build, "dadd", ["-i", "%s", "-f", "%s", "--", "+0s", case["dur"]], [case["in"]])
+        else:
+            out = run_args(ctx.build, "dadd", ["-f", "%s", "--", "@" + case["in"], case["dur"]]).lines() or [""]
+        return None if out[0] == x else {"in": case["in"], "dur": case["dur"], "expected": x, "actual": out[0]}
     if subname == "c11.adds":
         out, _ = run_lines(ctx.build, "dadd", ["--", case["dur"]], [case["in"]])
         t = case["n"] * 86400 + case["s"] + case["k"] * case["mul"]
